@@ -205,7 +205,7 @@ def Jump.signal : Jump → Signal
   | .brk => .brk | .cont => .cont | .next => .next | .exit => .exit | .ret => .ret
 
 mutual
-/-- fuel bounds the total number of loop iterations; `none` = out of fuel -/
+/-- fuel bounds the depth of the evaluation (every call takes one unit); `none` = out of fuel -/
 def execStmt (fuel : Nat) (s : Stmt) (sc : List Nat) (tr : List Ev) : Option Run :=
   match fuel with
   | 0 => none
@@ -216,14 +216,12 @@ def execStmt (fuel : Nat) (s : Stmt) (sc : List Nat) (tr : List Ev) : Option Run
     | .counter k => some ⟨.normal, sc, tr ++ [.ctr k]⟩
     | .block i b => execStmts fuel b sc (tr ++ [.start i])
     | .ifS i b e =>
-      let (d, sc') := nextDecision sc
-      if d != 0 then execStmts fuel b sc' (tr ++ [.start i]) else execStmts fuel e sc' (tr ++ [.start i])
+      if (nextDecision sc).1 != 0 then execStmts fuel b (nextDecision sc).2 (tr ++ [.start i])
+      else execStmts fuel e (nextDecision sc).2 (tr ++ [.start i])
     | .whileS i b => loop fuel b true sc (tr ++ [.start i])
     | .forS i b => loop fuel b true sc (tr ++ [.start i])
     | .doWhile i b => loop fuel b false sc (tr ++ [.start i])
-    | .forIn i b =>
-      let (n, sc') := nextDecision sc
-      iter fuel b n sc' (tr ++ [.start i])
+    | .forIn i b => iter fuel b (nextDecision sc).1 (nextDecision sc).2 (tr ++ [.start i])
 def execStmts (fuel : Nat) (ss : Stmts) (sc : List Nat) (tr : List Ev) : Option Run :=
   match fuel with
   | 0 => none
@@ -233,25 +231,22 @@ def execStmts (fuel : Nat) (ss : Stmts) (sc : List Nat) (tr : List Ev) : Option 
     | .cons s rest =>
       match execStmt fuel s sc tr with
       | none => none
-      | some r => if r.sig == .normal then execStmts fuel rest r.script r.trace else some r
+      | some r => if r.sig = .normal then execStmts fuel rest r.script r.trace else some r
 /-- `while`/`for` (test first) and `do … while` (body first) -/
 def loop (fuel : Nat) (b : Stmts) (testFirst : Bool) (sc : List Nat) (tr : List Ev) : Option Run :=
   match fuel with
   | 0 => none
   | fuel + 1 =>
-    let (go, sc1) := if testFirst then (let (d, r) := nextDecision sc; (d != 0, r)) else (true, sc)
-    if !go then some ⟨.normal, sc1, tr⟩ else
-    match execStmts fuel b sc1 tr with
+    if testFirst = true ∧ (nextDecision sc).1 = 0 then some ⟨.normal, (nextDecision sc).2, tr⟩ else
+    match execStmts fuel b (if testFirst then (nextDecision sc).2 else sc) tr with
     | none => none
     | some r =>
-      match r.sig with
-      | .brk => some ⟨.normal, r.script, r.trace⟩
-      | .normal | .cont =>
-        if testFirst then loop fuel b true r.script r.trace
-        else
-          let (d, sc2) := nextDecision r.script
-          if d != 0 then loop fuel b false sc2 r.trace else some ⟨.normal, sc2, r.trace⟩
-      | _ => some r
+      if r.sig = .brk then some ⟨.normal, r.script, r.trace⟩
+      else if r.sig = .normal ∨ r.sig = .cont then
+        (if testFirst then loop fuel b true r.script r.trace
+         else if (nextDecision r.script).1 != 0 then loop fuel b false (nextDecision r.script).2 r.trace
+         else some ⟨.normal, (nextDecision r.script).2, r.trace⟩)
+      else some r
 def iter (fuel : Nat) (b : Stmts) (n : Nat) (sc : List Nat) (tr : List Ev) : Option Run :=
   match fuel with
   | 0 => none
@@ -262,13 +257,14 @@ def iter (fuel : Nat) (b : Stmts) (n : Nat) (sc : List Nat) (tr : List Ev) : Opt
       match execStmts fuel b sc tr with
       | none => none
       | some r =>
-        match r.sig with
-        | .brk => some ⟨.normal, r.script, r.trace⟩
-        | .normal | .cont => iter fuel b n r.script r.trace
-        | _ => some r
+        if r.sig = .brk then some ⟨.normal, r.script, r.trace⟩
+        else if r.sig = .normal ∨ r.sig = .cont then iter fuel b n r.script r.trace
+        else some r
 end
 
 def eraseTrace (tr : List Ev) : List Ev := tr.filter fun | .ctr _ => false | _ => true
+
+def eraseRun (r : Run) : Run := ⟨r.sig, r.script, eraseTrace r.trace⟩
 
 def countCtr (k : Nat) (tr : List Ev) : Nat := tr.count (.ctr k)
 def countStart (i : Nat) (tr : List Ev) : Nat := tr.count (.start i)
